@@ -7,12 +7,14 @@ HOST = ALLF | {"hostile"}
 # per property: model-checking configs (quick, with thorough overrides), simulation sources, random profiles
 PLAN = {
     "C01": dict(
+        exhaustive=[("MC_Core.cfg", [1], 1)],
         mc=[("MC_Core.cfg", {"MaxMsgs": 6}), ("MC_Remote.cfg", {"MaxMsgs": 5})],
         sim=[("MC_Core.cfg", [1], 1, {"MaxActs": 5, "MaxMsgs": 12, "MaxDepth": 4, "MaxBlocks": 4,
                                        "Feat": '{"finish", "task", "alog", "ctx", "run", "succ", "typed", "tb", "remote", "ext", "logcall", "preserve"}'})],
         profiles=[dict(feat=ALLF, ndest=1, init=[1], maxlen=40, close=0.8, w_fin_ctx=0.0, shuffle=2),
                   dict(feat=ALLF | {"spawn"}, nctx=3, ndest=2, init=[1, 2], maxlen=40, close=0.8, w_fin_ctx=0.0)]),
     "C02": dict(
+        exhaustive=[("MC_Core.cfg", [1], 1)],
         mc=[("MC_Core.cfg", {"MaxMsgs": 6}), ("MC_Faults.cfg", {"MaxMsgs": 5}), ("MC_Conc.cfg", {"MaxMsgs": 5})],
         expect=[("MC_F2.cfg", "C02_EndIsLast_Strict")],
         sim=[("MC_Faults.cfg", [1, 2, 3], 3, {"NDest": 3, "MaxActs": 4, "MaxMsgs": 9, "MaxFaults": 4, "MaxDepth": 3, "MaxBlocks": 3,
@@ -21,12 +23,14 @@ PLAN = {
                        dfault=0.2, maxlen=40)],
         extra="c02_raced_ids", keep_sizes=True),
     "C03": dict(
+        exhaustive=[("MC_Core.cfg", [1], 1)],
         mc=[("MC_Core.cfg", {"MaxMsgs": 6}), ("MC_Succ.cfg", {"MaxMsgs": 5})],
         sim=[("MC_Succ.cfg", [1], 1, {"MaxActs": 4, "MaxMsgs": 10, "MaxDepth": 3, "MaxBlocks": 4,
                                        "Feat": '{"finish", "succ", "ext", "ctx", "run", "typed", "task"}'})],
         profiles=[dict(feat={"finish", "succ", "ext", "ctx", "run", "typed", "task", "alog"}, ndest=2, init=[1, 2], maxlen=40,
                        weights={"Exit": 4.0, "Finish": 1.0})]),
     "C04": dict(
+        exhaustive=[("MC_Core.cfg", [1], 1)],
         mc=[("MC_Scope.cfg", {"MaxActs": 3, "MaxMsgs": 4, "MaxBlocks": 4}), ("MC_Core.cfg", {}), ("MC_Abort.cfg", {"MaxMsgs": 4})],
         sim=[("MC_Scope.cfg", [1], 1, {"MaxActs": 4, "MaxMsgs": 8, "MaxBlocks": 6, "MaxDepth": 4, "Feat": '{"finish", "ctx", "run", "task", "ext"}'})],
         profiles=[dict(feat={"finish", "ctx", "run", "task", "ext"}, ndest=1, init=[1], maxlen=45, maxblocks=10,
@@ -150,6 +154,13 @@ def run(prop, tier):
             judge(rep, verdicts, "TLC-generated")
             if verdicts:
                 rep.sample({"source": "TLC -simulate " + cfg, "program": verdicts[0]["program"], "events": len(verdicts[0]["trace"]["ev"])})
+        for cfg, init, ndest in plan.get("exhaustive", []):
+            progs, r, total = exhaustive_behaviours(cfg, init, ndest, keep_one_in=(1 if tier == "thorough" else 60))
+            rep.cov["exhaustive_behaviours_of_" + cfg] = {"emitted_by_TLC": total, "replayed": len(progs)}
+            verdicts, st = validate(progs)
+            rep.cov["states"] += st
+            rep.cov["transitions"] += st
+            judge(rep, verdicts, "TLC-enumerated")
         # 3. code -> spec
         for i, prof in enumerate(plan["profiles"]):
             progs = random_programs(prof, size["rand"] // len(plan["profiles"]), SEED + 17 * i)
